@@ -79,6 +79,7 @@ func c08BarrierStack(cache bool) *c08Stack {
 	st := &c08Stack{Name: "view-barrier-inmem", MaxPlain: 2, HasCache: cache}
 	if cache {
 		st.Name = "view-barrier-cache-inmem"
+		st.Hooks = &c08Hooks{}
 	}
 	st.Open = func(t testing.TB) (c08Backend, func()) {
 		logger := log.NewNullLogger()
@@ -86,8 +87,10 @@ func c08BarrierStack(cache bool) *c08Stack {
 		if err != nil {
 			t.Fatal(err)
 		}
+		st.Ground = nil
+		var c physical.Cache
 		if cache {
-			c := physical.NewCache(phys, 0, logger, &metrics.BlackholeSink{})
+			c = physical.NewCache(c08UnderCache(phys, st.Hooks), 0, logger, &metrics.BlackholeSink{})
 			c.SetEnabled(true)
 			phys = c
 		}
@@ -107,7 +110,14 @@ func c08BarrierStack(cache bool) *c08Stack {
 		if !ok {
 			t.Fatalf("view over a transactional barrier is not transactional: %T", v)
 		}
-		return c08LogicalBackend{c08LogicalStore{v}, ts}, func() {}
+		be := c08LogicalBackend{c08LogicalStore{v}, ts}
+		if cache {
+			st.Ground = func(ctx context.Context) (map[string]string, []string, error) {
+				c.Purge(ctx)
+				return c08ScanStore(ctx, be)
+			}
+		}
+		return be, func() {}
 	}
 	return st
 }
